@@ -92,7 +92,7 @@ def _num_snapshot(v):
     return dict(value=float(v), chains={}, cov={}, rew=False, idl_form={})
 
 
-def _fd_jacobian(func, values, kwargs, out_shape):
+def _fd_jacobian(func, values, kwargs, out_shape, f0=None):
     """Richardson-extrapolated central differences of func at values -> array out_shape + values.shape."""
     values = np.asarray(values, dtype=float)
     kw = {k: v for k, v in kwargs.items() if k not in ('man_grad', 'num_grad', 'base_step', 'step_ratio')}
@@ -109,6 +109,18 @@ def _fd_jacobian(func, values, kwargs, out_shape):
         d1 = cd(h)
         d2 = cd(h / 2)
         d4 = cd(h / 4)
+        if f0 is not None:
+            # continuity at the point itself: central differences never look at f(v).  Where f selects a basis of a degenerate
+            # subspace (null vectors of a rank-deficient matrix in svd / pinv, eigenvectors of coinciding eigenvalues) f(v +- h)
+            # do not converge to f(v): the point is a singularity of f, outside the quantifier, and the call is not judged.
+            vp = values.copy()
+            vm = values.copy()
+            vp[idx] += h / 4
+            vm[idx] -= h / 4
+            fp = np.asarray(func(vp, **kw), dtype=float)
+            fm = np.asarray(func(vm, **kw), dtype=float)
+            if np.any(np.abs(0.5 * (fp + fm) - f0) > 0.05 * np.abs(fp - fm) + 1e-5 * (np.abs(f0) + 1e-3)):
+                raise FloatingPointError('function not continuous at the point')
         d = (4 * d4 - d2) / 3
         # self-validation: two Richardson estimates must agree, else the function is too curved for
         # this oracle at this point and the call is not judged
@@ -177,7 +189,7 @@ class DerivedObsMonitor(taps.Monitor):
             rtol = 1e-11
         else:
             try:
-                deriv = _fd_jacobian(func, values, fkw, new_values.shape)
+                deriv = _fd_jacobian(func, values, fkw, new_values.shape, f0=new_values)
             except FloatingPointError:
                 ctx.count('L1_fd_oracle_unreliable_not_judged')
                 return
